@@ -164,7 +164,7 @@ func (g *Gen) Duration() time.Duration {
 }
 
 func (g *Gen) float() float64 {
-	n := rapid.Int64Range(-180*64, 180*64).Draw(g.T, "f64")
+	n := rapid.OneOf(rapid.SampledFrom([]int64{64, -64, 128, 1, -1}), rapid.Int64Range(-180*64, 180*64)).Draw(g.T, "f64")
 	if n == 0 {
 		n = 1
 	}
@@ -319,9 +319,9 @@ func (g *Gen) SetField(v reflect.Value, f Field, depth int) {
 	case KIRI:
 		fv.SetString(string(g.ID("ref")))
 	case KUint:
-		fv.SetUint(rapid.Uint64Range(1, 1<<53).Draw(g.T, "uint"))
+		fv.SetUint(rapid.OneOf(rapid.Uint64Range(1, 3), rapid.Uint64Range(1, 1<<53)).Draw(g.T, "uint"))
 	case KInt:
-		n := rapid.Int64Range(-1<<40, 1<<40).Draw(g.T, "int")
+		n := rapid.OneOf(rapid.Int64Range(-2, 2), rapid.Int64Range(-1<<40, 1<<40)).Draw(g.T, "int")
 		if n == 0 {
 			n = 7
 		}
